@@ -124,11 +124,19 @@ def stream_op(rng, tw):
         return 'readall()', 'readall', lambda f: f.readall() if hasattr(f, 'readall') else f.read()
     if k == 'readinto':
         n = rng.choice([0, 1, 16, 2048, 3000, 10000])
+        # the buffer may have items wider than a byte: the count is in bytes all the same
+        typ = rng.choice(['bytearray', 'bytearray', 'bytearray', 'H', 'I', 'd', 'mv2'])
         def ri(f):
-            b = bytearray(b'\xee' * n)
+            import array
+            if typ == 'bytearray':
+                b = bytearray(b'\xee' * n)
+            elif typ == 'mv2':
+                b = memoryview(bytearray(b'\xee' * (n - n % 4))).cast('B', (max(1, (n - n % 4) // 4), 4)) if n >= 4 else bytearray(b'\xee' * n)
+            else:
+                b = array.array(typ, b'\xee' * (n - n % array.array(typ).itemsize))
             r = f.readinto(b)
             return (r, bytes(b))
-        return 'readinto(%d)' % n, 'readinto', ri
+        return 'readinto(%s %d)' % (typ, n), 'readinto', ri
     if k == 'seek0':
         o = rng.choice([0, 1, tw.size // 2, max(0, tw.size - 1), tw.size, tw.size + 5, 2048, 2047])
         return 'seek(%d,0)' % o, 'seek', lambda f: f.seek(o, 0)
